@@ -183,10 +183,13 @@ def handle (s : St) (line : String) : St :=
     match s.rep? r.toNat! with
     | none => s
     | some rep => s.setRep r.toNat! { rep with log := setIdentity rep.log (strBytes clk), writer := strBytes clk }
-  | ["J", r, r2, size, res] =>
+  | ["J", r, r2, size, res, nid] =>
     let s := { s with lastOp := if toInt! size > -1 then "joinN" else "join" }
     match s.rep? r.toNat!, s.rep? r2.toNat! with
-    | some a, some b =>
+    | some a, some b0 =>
+      -- which objects of the source carry no identity is an observation of the harness on the source itself
+      -- (made just before the call), not bookkeeping of the driver
+      let b := { b0 with noIdent := s.hs (parseList nid) }
       if res == "panic" then s.diff "join" "no-panic" "panic" |>.spec "C16" "joinNoPanic" false s!"join {r} {r2} {size}" else
       if res == "hang" then (s.diff "join" "returns" "hang").spec "C06" "joinReturns" false s!"join {r} {r2} {size} did not return" else
       if r == r2 then (if res == "ok" then s else s.diff "join.self" "ok" res) else
